@@ -216,7 +216,47 @@ def all_jobs():
     J.append(dict(id='member_method', src='blocc/member/member_complex.cpp', contract='member_method.c', enforce=mg, roots=[mg], replace=[VCALL_VALUE, V_CLEAR, CTX_ALLOCATE],
                   cut=[VCALL_VALUE, V_CLEAR, CTX_ALLOCATE, V_MOVE_ASSIGN, RTE_CTOR, RTE_CTOR_S], props=['C01', 'C04', 'C17'], pretty='bloc::MemberMETHODExpression::value', canaries=['normal', 'exceptional'],
                   structs=DEFAULT_STRUCTS + ['bloc::Context', 'bloc::Complex', 'bloc::MemberMETHODExpression', 'bloc::PLUGGED_MODULE', 'bloc::PluginManager', 'PLUGIN_METHOD', 'bloc::plugin::PluginBase', 'bloc::Expression']))
+    # ---- C18: the UTF-8 decoder of the utf8 module ----
+    U8 = {'P0': '_ZN10utf8helperL3_p0EPNS_6ParserEh', 'P1U2': '_ZN10utf8helperL6_p1_u2EPNS_6ParserEh', 'P1U3': '_ZN10utf8helperL6_p1_u3EPNS_6ParserEh', 'P2U3': '_ZN10utf8helperL6_p2_u3EPNS_6ParserEh',
+          'P1U4': '_ZN10utf8helperL6_p1_u4EPNS_6ParserEh', 'P2U4': '_ZN10utf8helperL6_p2_u4EPNS_6ParserEh', 'P3U4': '_ZN10utf8helperL6_p3_u4EPNS_6ParserEh'}
+    for k, mg in U8.items():
+        J.append(dict(id='utf8_' + k.lower(), src='modules/utf8/utf8helper.cpp', contract='utf8_parser.c', enforce=mg, roots=sorted(U8.values()), replace=[], cut=[],
+                      props=['C01', 'C18'], pretty='utf8helper::_' + k.lower().replace('u', '_u', 1) if k != 'P0' else 'utf8helper::_p0', canaries=['normal'], defines=['JOB_' + k],
+                      render_ns=['utf8helper'], globals_src='modules/utf8/utf8helper_charmap.cpp', enums=[],
+                      globals=['extent:utf8helper::charmap_us7ascii', 'utf8helper::pagemap_16', 'utf8helper::pagemap_24_e1', 'utf8helper::pagemap_24_e2', 'utf8helper::pagemap_32_f0_90', 'utf8helper::pagemap_32_f0_9e'],
+                      structs=['utf8helper::Parser', 'utf8helper::character']))
+    # ---- generic builtin contracts (C01, C05): one job per builtin listed here ----
+    for ent in BUILTINS_GENERIC:
+        name, cls, nargs = ent[0], ent[1], ent[2]
+        uw, uw_why = (ent[3], ent[4]) if len(ent) > 3 else (2, 'Value::deref_value() pointer chase (complete: operands hold no pointers to pointers)')
+        strmax = ent[5] if len(ent) > 5 else None
+        mg = '_ZNK4bloc%d%s5valueERNS_7ContextE' % (len(cls), cls)
+        if any(j['id'] == 'bi_' + name for j in J):
+            continue
+        J.append(dict(id='bi_' + name, src='blocc/builtin/builtin_%s.cpp' % name, contract='builtin_generic.c', enforce=mg, roots=[mg], replace=list(MEMB_REPLACE) + [V_CTOR_IMAG], cut=list(MEMB_CUT) + [V_CTOR_IMAG],
+                      props=['C01', 'C05'], pretty='bloc::%s::value' % cls, canaries=['normal', 'exceptional'], unwind=uw,
+                      unwind_why=uw_why,
+                      defines=['BUILTIN_FN=' + mg, 'BUILTIN_CLASS=' + cls, 'BUILTIN_NARGS=%d' % nargs] + (['BUILTIN_STR_MAX=%d' % strmax] if strmax else []),
+                      **({'bounded_inputs': True} if strmax else {}),
+                      structs=DEFAULT_STRUCTS + [STD_STRING, VEC_CHAR, 'bloc::Imaginary', 'std::complex<double>', 'bloc::Context', 'bloc::' + cls]))
     return J
+
+# builtins under the generic contract (name, class, number of arguments); see tools/try_builtins.sh for how the list was grown
+BUILTINS_GENERIC = [
+    ('abs', 'ABSExpression', 1), ('acos', 'ACOSExpression', 1), ('asin', 'ASINExpression', 1), ('atan', 'ATANExpression', 1), ('atan2', 'ATAN2Expression', 2),
+    ('bool', 'BOOLExpression', 1), ('ceil', 'CEILExpression', 1), ('clamp', 'CLAMPExpression', 3), ('cos', 'COSExpression', 1), ('cosh', 'COSHExpression', 1),
+    ('exp', 'EXPExpression', 1), ('floor', 'FLOORExpression', 1), ('iconj', 'ICONJExpression', 1), ('imag', 'IMAGExpression', 1), ('iphase', 'IPHASEExpression', 1),
+    ('isnull', 'ISNULLExpression', 1), ('log', 'LOGExpression', 1), ('log10', 'LOG10Expression', 1), ('max', 'MAXExpression', 2), ('min', 'MINExpression', 2),
+    ('mod', 'MODExpression', 2), ('pow', 'POWExpression', 2), ('round', 'ROUNDExpression', 2), ('sign', 'SIGNExpression', 1), ('sin', 'SINExpression', 1),
+    ('sinh', 'SINHExpression', 1), ('sqrt', 'SQRTExpression', 1), ('strlen', 'STRLENExpression', 1), ('tan', 'TANExpression', 1), ('tanh', 'TANHExpression', 1),
+    ('typeof', 'TYPEOFExpression', 1),
+    ('trim', 'TRIMExpression', 1, 8, 'character loops over a string of at most 2 characters (operand bound)', 2),
+    ('ltrim', 'LTRIMExpression', 1, 8, 'character loops over a string of at most 2 characters (operand bound)', 2),
+    ('rtrim', 'RTRIMExpression', 1, 8, 'character loops over a string of at most 2 characters (operand bound)', 2),
+    ('hex', 'HEXExpression', 2, 17, 'HEXExpression::hex writes the 16 hexadecimal digits of a 64-bit value: 15 iterations, complete'),
+]
+if os.environ.get('VERIF_BUILTINS'):   # experiments only (tools/try_builtins.sh): name:Class:nargs,...
+    BUILTINS_GENERIC = BUILTINS_GENERIC + [tuple([a.split(':')[0], a.split(':')[1], int(a.split(':')[2])] + ([int(a.split(':')[3]), 'experiment', int(a.split(':')[4])] if len(a.split(':')) > 4 else [])) for a in os.environ['VERIF_BUILTINS'].split(',')]
 
 def known_findings():
     p = os.path.join(VERIF, 'known_findings.json')
